@@ -65,6 +65,9 @@ type Run struct {
 // VERIF_CASE (restrict to one case id, used by replay), VERIF_DEADLINE_S.
 func Start(t testing.TB, prop, unit string) *Run {
 	r := &Run{t: t, Prop: prop, Unit: unit, start: time.Now()}
+	activeMu.Lock()
+	activeRuns[r] = true
+	activeMu.Unlock()
 	r.tier = os.Getenv("VERIF_TIER")
 	if r.tier == "" {
 		r.tier = "quick"
@@ -276,6 +279,12 @@ type unitJSON struct {
 // Finish writes the unit result. Violations do not fail the Go test: the
 // driver decides (known findings); when run without the driver they do.
 func (r *Run) Finish() {
+	if e := recover(); e != nil { // Finish is the deferred function of the unit: a panic of the unit's own goroutine ends here
+		r.escapedPanic("unit goroutine", describePanic(e))
+	}
+	activeMu.Lock()
+	delete(activeRuns, r)
+	activeMu.Unlock()
 	if wd, err := os.Getwd(); err == nil {
 		r.Set("pkgdir", wd)
 	}
@@ -323,19 +332,44 @@ func Try(f func()) (panicked bool, what string) {
 	defer func() {
 		if e := recover(); e != nil {
 			panicked = true
-			what = fmt.Sprint(e)
-			st := string(debug.Stack())
-			// keep the innermost circl frame for the key
-			for _, ln := range strings.Split(st, "\n") {
-				if strings.Contains(ln, repoRoot()+"/") && !strings.Contains(ln, "zz_verif") && !strings.Contains(ln, "verifmc") {
-					what += " @ " + strings.TrimSpace(ln)
-					break
-				}
-			}
+			what = describePanic(e)
 		}
 	}()
 	f()
 	return false, ""
+}
+
+// describePanic renders a recovered value plus " @ file:line" of the innermost frame of the
+// library under test (must be called from the deferred function that recovered).
+func describePanic(e interface{}) string {
+	what := fmt.Sprint(e)
+	st := string(debug.Stack())
+	// keep the innermost circl frame for the key
+	for _, ln := range strings.Split(st, "\n") {
+		if strings.Contains(ln, repoRoot()+"/") && !strings.Contains(ln, "zz_verif") && !strings.Contains(ln, "verifmc") && !strings.Contains(ln, "/internal/verif") {
+			what += " @ " + strings.TrimSpace(ln)
+			break
+		}
+	}
+	return what
+}
+
+// Backstop for panics that escape a unit's own Try: a panic whose trace has a frame of the library
+// under test means the library panicked while the harness drove it (reported as a violation of the
+// unit, class unexpected-panic); a panic without such a frame is a harness error (the unit becomes
+// vacuous, i.e. the run is broken). Either way the test binary survives and the other units report.
+var (
+	activeMu   sync.Mutex
+	activeRuns = map[*Run]bool{}
+)
+
+func (r *Run) escapedPanic(where, what string) {
+	if site := PanicSite(what); site != "" {
+		r.Violation(r.Prop+"|"+r.Unit+"|unexpected-panic:"+PanicClass(what)+"|"+site, where,
+			"the library panicked while the unit drove it ("+where+"): "+what, map[string]interface{}{"panic": what, "where": where})
+		return
+	}
+	r.Vacuous("harness panic (" + where + "): " + what)
 }
 
 func repoRoot() string {
@@ -399,9 +433,29 @@ func ParallelFor(n int, f func(i int)) {
 	if w > n {
 		w = n
 	}
+	guarded := func(i int) {
+		defer func() {
+			if e := recover(); e != nil {
+				what := describePanic(e)
+				activeMu.Lock()
+				rs := make([]*Run, 0, len(activeRuns))
+				for r := range activeRuns {
+					rs = append(rs, r)
+				}
+				activeMu.Unlock()
+				if len(rs) == 0 {
+					panic(e)
+				}
+				for _, r := range rs {
+					r.escapedPanic(fmt.Sprintf("parallel job %d of %d", i, n), what)
+				}
+			}
+		}()
+		f(i)
+	}
 	if w <= 1 {
 		for i := 0; i < n; i++ {
-			f(i)
+			guarded(i)
 		}
 		return
 	}
@@ -416,7 +470,7 @@ func ParallelFor(n int, f func(i int)) {
 				if i >= n {
 					return
 				}
-				f(i)
+				guarded(i)
 			}
 		}()
 	}
